@@ -8,7 +8,7 @@ For each NAME (worktree /tmp/seed/NAME left by the agent WITH its change applied
   3. apply the patch to /repo, run the quick tier of the listed checks, undo the patch straight afterwards (git checkout -- .);
   4. a shrunk failing case found by the check is kept as replays/<ID>/reg-seed-<name>.json when it passes on the unchanged tree;
   5. remove the worktree.
-usage: tools/seed_eval.py NAME[:CHECK,CHECK...] ...      (default check = property in OUT/meta.json)
+usage: tools/seed_eval.py [--rerun] NAME[:CHECK,CHECK...] ...      (default check = property in OUT/meta.json; --rerun: only step 3/4 for a kept change)
 """
 import os, sys, subprocess, json, shutil, glob, time
 
@@ -39,12 +39,56 @@ def demo(wt):
     return rc, out2[-1500:]
 
 
+def run_checks(dst, checks, name):
+    """apply the kept patch to /repo, run the quick tier of the checks, undo the patch; keep shrunk failures as regression replays"""
+    rc, out = sh('git -C /repo status --porcelain --untracked-files=no')
+    if out.strip():
+        print('   /repo has uncommitted changes - refusing to apply'); return None
+    rc, out = sh('git -C /repo apply %s' % os.path.join(dst, 'patch.diff'))
+    if rc != 0:
+        print('   patch does not apply to /repo: ' + out); return None
+    runs = {}
+    try:
+        for cid in checks:
+            t0 = time.time()
+            rc, out = sh('./check %s --tier quick' % cid, cwd=VERIF, timeout=7200)
+            viol = [l for l in out.splitlines() if l.startswith('VIOLATION')]
+            verdict = 'caught' if rc == 1 and viol else ('build-failed' if rc == 2 else 'missed')
+            first = next((l for l in out.splitlines() if l.strip() and not l.startswith('[build')), '')[:400]
+            runs[cid] = {'verdict': verdict, 'seconds': round(time.time() - t0), 'first_line': first, 'violation_line': viol[0] if viol else None}
+            print('   check %s: %s (%.0f s)  %s' % (cid, verdict, time.time() - t0, first[:200]), flush=True)
+            if verdict == 'missed':
+                print('      ' + '\n      '.join(out.splitlines()[-6:]))
+    finally:
+        sh('git -C /repo checkout -- .')
+        sh('git checkout -- evidence', cwd=VERIF)
+    for cid in checks:
+        for f in glob.glob(os.path.join(VERIF, 'replays', cid, 'fail-*.json')):
+            rc, out = sh('./check %s --replay %s' % (cid, f), cwd=VERIF)
+            tgt = os.path.join(VERIF, 'replays', cid, 'reg-seed-%s.json' % name.lstrip('s'))
+            if rc == 0 and not os.path.exists(tgt):
+                os.replace(f, tgt)
+            else:
+                os.remove(f)
+    return runs
+
+
 def main():
     results = []
-    for arg in sys.argv[1:]:
+    rerun = '--rerun' in sys.argv
+    for arg in [a for a in sys.argv[1:] if a != '--rerun']:
         name, _, cl = arg.partition(':')
         wt = '/tmp/seed/' + name
         rec = {'name': name}
+        if rerun:
+            dst = os.path.join(VERIF, 'seeded', name.lstrip('s'))
+            meta = json.load(open(os.path.join(dst, 'meta.json')))
+            checks = cl.split(',') if cl else [meta.get('property')]
+            runs = run_checks(dst, checks, name)
+            if runs is not None:
+                meta.setdefault('evaluation', {}).setdefault('checks_quick_tier_with_change_applied_to_repo', {}).update(runs)
+                json.dump(meta, open(os.path.join(dst, 'meta.json'), 'w'), indent=1)
+            continue
         try:
             meta = json.load(open(os.path.join(wt, 'OUT', 'meta.json')))
         except Exception as e:
@@ -72,34 +116,10 @@ def main():
             p = os.path.join(wt, 'OUT', fn)
             if os.path.isfile(p) and os.path.getsize(p) < 200000 and not os.access(p, os.X_OK) or fn.endswith('.sh'):
                 shutil.copy(p, dst)
-        # 3. run the checks against /repo with the patch applied
-        rc, out = sh('git -C /repo apply %s' % os.path.join(dst, 'patch.diff'))
-        if rc != 0:
-            print('   patch does not apply to /repo: ' + out); rec['applies'] = False; results.append(rec); continue
-        runs = {}
-        try:
-            for cid in checks:
-                t0 = time.time()
-                rc, out = sh('./check %s --tier quick' % cid, cwd=VERIF, timeout=7200)
-                viol = [l for l in out.splitlines() if l.startswith('VIOLATION')]
-                verdict = 'caught' if rc == 1 and viol else ('build-failed' if rc == 2 else 'missed')
-                first = next((l for l in out.splitlines() if l.strip() and not l.startswith('[build')), '')[:400]
-                runs[cid] = {'verdict': verdict, 'seconds': round(time.time() - t0), 'first_line': first, 'violation_line': viol[0] if viol else None}
-                print('   check %s: %s (%.0f s)  %s' % (cid, verdict, time.time() - t0, first[:200]), flush=True)
-                if verdict == 'missed':
-                    print('      ' + '\n      '.join(out.splitlines()[-6:]))
-        finally:
-            sh('git -C /repo checkout -- .')
-            sh('git checkout -- evidence', cwd=VERIF)
+        runs = run_checks(dst, checks, name)
+        if runs is None:
+            rec['applies'] = False; results.append(rec); continue
         rec['checks'] = runs
-        # 4. keep the shrunk failing cases as regression replays if they pass on the unchanged tree
-        for cid in checks:
-            for f in glob.glob(os.path.join(VERIF, 'replays', cid, 'fail-*.json')):
-                rc, out = sh('VERIF_NOBUILD=0 ./check %s --replay %s' % (cid, f), cwd=VERIF)
-                if rc == 0:
-                    os.replace(f, os.path.join(VERIF, 'replays', cid, 'reg-seed-%s.json' % name.lstrip('s')))
-                else:
-                    os.remove(f)
         meta['evaluation'] = {'confirmed_by': 'tools/seed_eval.py: unit tests pass with the change; demonstration fails with it and passes without it',
                               'unit_tests_pass_with_change': ok_tests, 'demo_rc_with_change': rc_with, 'demo_rc_without_change': rc_without,
                               'checks_quick_tier_with_change_applied_to_repo': runs}
